@@ -1,6 +1,7 @@
 package main
 
 import (
+	"go/ast"
 	"context"
 	"fmt"
 	"go/token"
@@ -339,6 +340,11 @@ func (x *X) havocAlloc() {
 	old := x.heapCur("ALLOC", arrSort(SBool))
 	n := x.sc.Fresh("alloc", arrSort(SBool))
 	x.sc.Assert(fmt.Sprintf("(forall ((r Int)) (! (=> (select %s r) (select %s r)) :pattern ((select %s r))))", old, n, n))
+	// the same fact at the identities the program handles (see evalTouches)
+	x.sc.n++
+	fn := fmt.Sprintf("allocmono!%d", x.sc.n)
+	x.sc.add(fmt.Sprintf("(define-fun %s ((r Int)) Bool (=> (select %s r) (select %s r)))", fn, old, n))
+	x.quants = append(x.quants, quant{class: "ref", guard: "true", fn: fn, line: len(x.sc.lines), key: "*skolem"}, quant{class: "arr", guard: "true", fn: fn, line: len(x.sc.lines), key: "*skolem"})
 	x.sc.Assert(fmt.Sprintf("(not (select %s 0))", n))
 	x.st.heap["ALLOC"] = n
 }
@@ -370,6 +376,11 @@ func (x *X) havocWrites(w *writeSet, why string) {
 					x.written[hk] = true
 				}
 			}
+			continue
+		}
+		if strings.HasPrefix(k, "B:") {
+			// boxes are written once, when they are created: existing ones keep their content, and what an
+			// index holds before a box is created there is unconstrained anyway
 			continue
 		}
 		srt := w.keys[k]
@@ -559,7 +570,11 @@ func (x *X) cutLoop(fr *frame, order []*ssa.BasicBlock, li *loopInfo) {
 	var spec *LoopSpec
 	ord := x.loopOrdinal(fr, li)
 	if x.specs != nil {
-		if fs := x.specs.Funcs[FuncName(fr.fn)]; fs != nil {
+		fs := x.specs.Funcs[FuncName(fr.fn)]
+		if len(x.stack) == 1 && x.topSpec != nil {
+			fs = x.topSpec // the contract (variant) under verification
+		}
+		if fs != nil {
 			spec = fs.Loops[ord]
 		}
 	}
@@ -604,14 +619,47 @@ func (x *X) cutLoop(fr *frame, order []*ssa.BasicBlock, li *loopInfo) {
 	// invariants hold on entry
 	if len(invs) > 0 {
 		env := x.envAt(fr, li, entryVals)
+		env.loopOld = entry
 		for i, inv := range invs {
 			x.oblige("inv.entry", fmt.Sprintf("%s invariant %d: %s", site, i+1, inv), pos, x.evalBool(env, inv))
 		}
 	}
-	// havoc what the loop may change
+	// a loop without contract in a function under contract: if no back edge can be
+	// taken from the entry state, the loop is its first (partial) pass and nothing is forgotten
+	if spec == nil && x.peel {
+		done, rest := x.peelLoop(fr, order, li, entry, entryVals, phis)
+		if done {
+			return
+		}
+		if rest != "" {
+			// the first pass has been accounted for exactly; what follows stands for the later ones
+			entry = entry.clone()
+			entry.cond = rest
+		}
+	}
+	// havoc what the loop may change; invariants of the shape [imp(G,] .. touches(..) .. [)]
+	// (relative to the state on entry of the function) refine how
 	w := x.blockWrites(fr.fn, li.blocks)
 	x.st = entry.clone()
-	x.havocWrites(w, "loop body")
+	var fcs []*frameClause
+	invRest := map[int]ast.Expr{}
+	invFramed := map[int]bool{}
+	for i, inv := range invs {
+		if fc, rest := splitFrame(inv); fc != nil && (x.entryState != nil || fc.loop) {
+			fcs = append(fcs, fc)
+			invFramed[i] = true
+			if rest != nil {
+				invRest[i] = rest
+			}
+		}
+	}
+	if len(fcs) > 0 {
+		henv := x.envAt(fr, li, entryVals)
+		henv.loopOld = entry
+		x.preciseHavoc2(w, "loop body", henv, x.entryState, entry, fcs, nil)
+	} else {
+		x.havocWrites(w, "loop body")
+	}
 	for a := range w.cells {
 		if cell, ok := fr.cells[a]; ok {
 			if _, live := x.st.cells[cell]; live {
@@ -697,8 +745,15 @@ func (x *X) cutLoop(fr *frame, order []*ssa.BasicBlock, li *loopInfo) {
 	var d0 string
 	if len(invs) > 0 || (spec != nil && spec.Decreases != "") {
 		env := x.envAt(fr, li, phiVals)
+		env.loopOld = entry
 		x.polarity = -1
-		for _, inv := range invs {
+		for i, inv := range invs {
+			if invFramed[i] {
+				if rest, ok := invRest[i]; ok {
+					x.assume(x.eval(env, rest).V.(S).T)
+				}
+				continue
+			}
 			x.assume(x.evalBool(env, inv))
 		}
 		x.polarity = 1
@@ -740,6 +795,7 @@ func (x *X) cutLoop(fr *frame, order []*ssa.BasicBlock, li *loopInfo) {
 		}
 		if len(invs) > 0 || d0 != "" {
 			env := x.envAt(fr, li, next)
+			env.loopOld = entry
 			for i, inv := range invs {
 				x.oblige("inv.preserve", fmt.Sprintf("%s invariant %d: %s", site, i+1, inv), pos, x.evalBool(env, inv))
 			}
@@ -965,6 +1021,21 @@ func (x *X) callContract(f *ssa.Function, fs *FuncSpec, args []Val, in ssa.Instr
 		x.oblige("pre", site+" requires "+r, pos, x.evalBool(env, r))
 	}
 	old := x.st.clone()
+	// postconditions of the shape [imp(G,] touches(..) [)] refine how the heap is forgotten
+	var fcs []*frameClause
+	rests := map[int]ast.Expr{}
+	framed := map[int]bool{}
+	for i, e := range fs.Ensures {
+		if fc, rest := splitFrame(e); fc != nil {
+			fcs = append(fcs, fc)
+			framed[i] = true
+			if rest != nil {
+				rests[i] = rest
+			}
+		}
+	}
+	rt := resultType(f.Signature)
+	var res Val
 	if !fs.Pure {
 		var w *writeSet
 		if fs.Modifies != nil {
@@ -975,14 +1046,28 @@ func (x *X) callContract(f *ssa.Function, fs *FuncSpec, args []Val, in ssa.Instr
 		} else {
 			w = x.fnWrites(f)
 		}
-		x.havocWrites(w, "call of "+FuncName(f))
+		if len(fcs) > 0 {
+			x.preciseHavoc(w, "call of "+FuncName(f), env, old, fcs, func() {
+				res = x.freshVal(rt, sanitize(f.Name())+".res")
+				bindResult(env, res, rt)
+			})
+		} else {
+			x.havocWrites(w, "call of "+FuncName(f))
+		}
 	}
-	rt := resultType(f.Signature)
-	res := x.freshVal(rt, sanitize(f.Name())+".res")
+	if res == nil {
+		res = x.freshVal(rt, sanitize(f.Name())+".res")
+		bindResult(env, res, rt)
+	}
 	env.old = old
-	bindResult(env, res, rt)
 	x.polarity = -1
-	for _, e := range fs.Ensures {
+	for i, e := range fs.Ensures {
+		if framed[i] {
+			if rest, ok := rests[i]; ok {
+				x.assume(implies(x.st.cond, x.eval(env, rest).V.(S).T))
+			}
+			continue
+		}
 		x.assume(implies(x.st.cond, x.evalBool(env, e)))
 	}
 	x.polarity = 1
@@ -1014,13 +1099,25 @@ func VerifyFunc(prog *Prog, specs *Specs, fn *ssa.Function, tier string, c *chec
 // sent to the solvers (status "skipped"). A function whose obligations are
 // renamed in place is solved entirely, so that positional re-matching works.
 func verifyFuncFiltered(prog *Prog, specs *Specs, fn *ssa.Function, tier string, c *checkCtx, kinds map[string]bool, base map[string]bool) (res []OblResult) {
+	return verifyFuncVariant(prog, specs, fn, "", tier, c, kinds, base)
+}
+
+// verifyFuncVariant verifies fn against its contract (variant "") or against one of its variant contracts.
+func verifyFuncVariant(prog *Prog, specs *Specs, fn *ssa.Function, variant string, tier string, c *checkCtx, kinds map[string]bool, base map[string]bool) (res []OblResult) {
 	name := FuncName(fn)
 	fs := specs.Funcs[name]
+	if variant != "" {
+		fs = specs.Funcs[name+"~"+variant]
+	}
 	if fs == nil {
 		fs = &FuncSpec{Name: name, Loops: map[int]*LoopSpec{}}
 	}
 	x := NewX(prog, specs, modeVC)
 	x.unfold = map[string]bool{name: true}
+	x.topSpec = fs
+	if variant != "" {
+		name = name + "~" + variant // obligations of the variant carry its name
+	}
 	x.curFn = name
 	defer func() {
 		if r := recover(); r != nil {
@@ -1060,6 +1157,16 @@ func verifyFuncFiltered(prog *Prog, specs *Specs, fn *ssa.Function, tier string,
 	x.entryState = old
 	env.old = old
 	x.siteAsserts = fs.Asserts
+	x.usesOnly = map[string]bool{}
+	for _, u := range fs.Uses {
+		x.usesOnly[u] = true
+	}
+	x.abstractCallee = map[string]bool{}
+	for _, a := range fs.Abstract {
+		x.abstractCallee[a] = true
+	}
+	x.peel = len(fs.Ensures) > 0 || len(fs.Asserts) > 0
+	x.prune = fs.Prune
 	if len(fs.Ensures) > 0 {
 		x.retHook = func(v Val) {
 			renv := env.child()
@@ -1187,6 +1294,30 @@ func verifyFuncFiltered(prog *Prog, specs *Specs, fn *ssa.Function, tier string,
 		}
 		res = append(res, r)
 	}
+	// a function declared pure writes nothing and allocates nothing
+	if fs.Pure && !fs.Trusted {
+		w := x.fnWrites(fn)
+		var bad []string
+		if w.all {
+			bad = append(bad, "(unknown code: everything)")
+		}
+		if w.alloc {
+			bad = append(bad, "allocation")
+		}
+		for k := range w.keys {
+			bad = append(bad, strings.TrimPrefix(k, "@"))
+		}
+		sort.Strings(bad)
+		r := OblResult{Name: name + "#frame:pure", Status: "proved", Kind: "frame", Func: name, Site: "pure", Solver: "static may-write analysis over go/ssa", Order: len(x.obls)}
+		if len(bad) > 0 {
+			r.Status = "failed"
+			if len(bad) > 12 {
+				bad = append(bad[:12], "...")
+			}
+			r.Detail = "the body may write " + strings.Join(bad, ", ")
+		}
+		res = append(res, r)
+	}
 	return res
 }
 
@@ -1254,4 +1385,96 @@ func varargsLen(c *ssa.CallCommon) int {
 		return 0
 	}
 	return int(at.Len())
+}
+
+// peelLoop runs the loop once from its entry state. When every back edge is
+// infeasible there, the exits of that pass are exact and are the loop's whole
+// effect (done). Otherwise, if nothing computed inside the loop is used after
+// it, the exits of the first pass are still kept as they are (they take
+// precedence where their conditions hold) and the generic treatment that
+// follows only has to stand for the passes after the first: rest is the
+// condition under which there is one.
+func (x *X) peelLoop(fr *frame, order []*ssa.BasicBlock, li *loopInfo, entry *State, entryVals map[*ssa.Phi]Val, phis []*ssa.Phi) (done bool, rest string) {
+	h := li.header
+	var sub []*ssa.BasicBlock
+	for _, b := range order {
+		if li.blocks[b.Index] {
+			sub = append(sub, b)
+		}
+	}
+	pass := func() []edge {
+		for _, b := range sub[1:] {
+			fr.in[b.Index] = nil
+		}
+		for _, phi := range phis {
+			fr.vals[phi] = entryVals[phi]
+		}
+		saveLoop, saveExits, saveIn := fr.inLoop, fr.exitsTo, fr.in[h.Index]
+		fr.inLoop, fr.exitsTo = li, nil
+		fr.in[h.Index] = []edge{{from: -1, to: h.Index, st: entry.clone()}}
+		x.runBlock(fr, h, li.blocks)
+		x.runBlocks(fr, sub[1:], li.blocks)
+		exits := fr.exitsTo
+		fr.inLoop, fr.exitsTo = saveLoop, saveExits
+		fr.in[h.Index] = saveIn
+		return exits
+	}
+	saveSt := x.st
+	x.noOblig++
+	trial := pass()
+	x.noOblig--
+	var backs []string
+	for _, e := range trial {
+		if e.to == h.Index && !x.unreachable(e.st.cond) {
+			backs = append(backs, e.st.cond)
+		}
+	}
+	if len(backs) == 0 {
+		for _, e := range pass() {
+			if e.to != h.Index {
+				fr.in[e.to] = append(fr.in[e.to], e)
+			}
+		}
+		for _, phi := range phis {
+			fr.vals[phi] = entryVals[phi]
+		}
+		return true, ""
+	}
+	for _, b := range sub[1:] {
+		fr.in[b.Index] = nil
+	}
+	x.st = saveSt
+	if !loopValuesStayInside(fr.fn, li) {
+		return false, ""
+	}
+	for _, e := range trial {
+		if e.to != h.Index {
+			fr.in[e.to] = append(fr.in[e.to], e)
+		}
+	}
+	if len(backs) == 1 {
+		return false, backs[0]
+	}
+	return false, "(or " + strings.Join(backs, " ") + ")"
+}
+
+// loopValuesStayInside: no value computed in the loop is used outside of it.
+func loopValuesStayInside(fn *ssa.Function, li *loopInfo) bool {
+	for _, b := range fn.Blocks {
+		if !li.blocks[b.Index] {
+			continue
+		}
+		for _, in := range b.Instrs {
+			v, ok := in.(ssa.Value)
+			if !ok || v.Referrers() == nil {
+				continue
+			}
+			for _, r := range *v.Referrers() {
+				if r.Block() != nil && !li.blocks[r.Block().Index] {
+					return false
+				}
+			}
+		}
+	}
+	return true
 }
